@@ -550,6 +550,14 @@ void mmd_assign_line_type(mmd_engine * e, token * line) {
 						case HASH6:
 							t->type -= HASH1;
 							t->type += MARKER_H1;
+
+							// A closing run of more than six '#' is lexed as single '#' tokens followed by the marker
+							while (t->prev && (t->prev->type == TEXT_HASH) && (t->prev != first_child) &&
+									(t->prev->start + t->prev->len == t->start)) {
+								t->prev->type = t->type;
+								t = t->prev;
+							}
+
 							t = NULL;
 							break;
 
